@@ -53,6 +53,18 @@ func checkC08(c streamCase) (Outcome, error) {
 	}
 	r := gen.NewReader(stream)
 	r.Delays = c.Delays
+	r.Plan = c.Plan
+	if len(c.Plan) > 0 {
+		out.Classes = append(out.Classes, "short-reads")
+		// keep the number of sleeping reads bounded: with 1-byte reads a sleep per read would take minutes
+		if len(c.Plan) == 1 && c.Plan[0] < 64 {
+			for i := range r.Delays {
+				if r.Delays[i] >= 10 {
+					r.Delays[i] = 1 + r.Delays[i]%9
+				}
+			}
+		}
+	}
 	vf, ef := w.Fast(r)
 	is, ifa := namedItem(es), namedItem(ef)
 	out.NonTrivial = vs || (es != nil && !errSaysZero(es))
@@ -114,7 +126,7 @@ func itoa(n int) string {
 
 func genC08(t *rapid.T) streamCase {
 	wn := c07Workflow()
-	targets := []string{"passcount", "uniformity", "two-items", "random", "random", "allpass", "allpass"}
+	targets := []string{"passcount", "uniformity", "two-items", "random", "random", "allpass", "allpass", "one-bad", "one-bad"}
 	if wn == "period" {
 		targets = append(targets, "lfsr", "lfsr")
 	}
@@ -122,6 +134,11 @@ func genC08(t *rapid.T) streamCase {
 	c.Fast = true
 	c.Delays = drawDelays(t)
 	c.Procs = rapid.SampledFrom([]int{1, 2, 4, 16}).Draw(t, "gomaxprocs")
+	if rapid.IntRange(0, 2).Draw(t, "shortreads") == 0 {
+		// a concurrency-safe source may also return short reads; combined with delays this lets the
+		// workers' reads interleave inside a sample if the library does not read a sample atomically
+		_, c.Plan = drawPlan(t, c.wf().SampleBytes)
+	}
 	return c
 }
 
